@@ -350,7 +350,7 @@ def verify_unit(unit, tier="quick", do_canary=True):
     if not obs:
         out.update(status="undecided", reason="no obligations generated (vacuous unit)")
         return out
-    rl = 40 if tier == "thorough" else None
+    rl = 200 if tier == "thorough" else 50
     r = run_verus(path, rlimit=rl)
     out.update(cmd=r["cmd"], wall=r["wall"], verified=r.get("verified", 0), errors=r.get("errors", 0))
     t = r.get("js", {}).get("times-ms", {})
@@ -378,12 +378,12 @@ def verify_unit(unit, tier="quick", do_canary=True):
         total = 0
         cwall = 0.0
         reason = ""
-        for gi, grp in enumerate(groups):
+        def one(args):
+            gi, grp = args
             cg = make_canary(g, m0, grp)
             cpath = os.path.join(WORK, f"{unit}_canary{gi}.rs")
             open(cpath, "w", encoding="utf-8").write(cg)
-            cr = run_verus(cpath)
-            cwall += cr["wall"]
+            cr = run_verus(cpath, rlimit=50)
             failed_fns = set()
             cm = R.mask(cg)
             cfns = functions(cg, cm)
@@ -393,6 +393,12 @@ def verify_unit(unit, tier="quick", do_canary=True):
                     for f in cfns:
                         if f.kw <= pos < f.end:
                             failed_fns.add(f.name)
+            return grp, failed_fns, cr
+        from concurrent.futures import ThreadPoolExecutor
+        with ThreadPoolExecutor(max_workers=4) as ex:
+            rs = list(ex.map(one, list(enumerate(groups))))
+        for grp, failed_fns, cr in rs:
+            cwall += cr["wall"]
             total += len(grp)
             missing += [f.name for f in grp if f.name not in failed_fns]
             if cr["status"] == "undecided" and cr.get("reason", "").startswith("verus did not reach"):
